@@ -314,6 +314,13 @@ func (p *phaser) alignAgainstRefsAA(seq Sequence, orfsaa []Sequence) (ph PhasedS
 		}
 	}
 
+	// No reference aligns with a positive score in any phase:
+	// the sequence is discarded
+	if bestseq == nil {
+		ph = PhasedSequence{Removed: true, NtSeq: seq}
+		return
+	}
+
 	ph = PhasedSequence{
 		Err:      nil,
 		Removed:  false,
@@ -404,6 +411,13 @@ func (p *phaser) alignAgainstRefsNT(seq Sequence, orfs []Sequence) (ph PhasedSeq
 				}
 			}
 		}
+	}
+
+	// No reference aligns with a positive score on any strand:
+	// the sequence is discarded
+	if bestseq == nil {
+		ph = PhasedSequence{Removed: true, NtSeq: seq}
+		return
 	}
 
 	phase = (3 - nbgapstart%3) % 3
